@@ -121,13 +121,17 @@ public:
             return;
         }
 
-        std::size_t const bin_x = shifted_x / parameters.bin_size_x();
+        // compare as floating point numbers: the quotient may be infinite, not-a-number or too
+        // large for an integer, in which case the conversion below would be undefined
+        T const real_bin_x = shifted_x / parameters.bin_size_x();
 
-        if (bin_x >= parameters.bins_x())
+        if (!(real_bin_x < T(parameters.bins_x())))
         {
             // point is right of the range that we are binning
             return;
         }
+
+        std::size_t const bin_x = real_bin_x;
 
         std::size_t const new_index = indices_.at(index) + 2 * bin_x;
 
@@ -172,20 +176,26 @@ public:
             return;
         }
 
-        std::size_t const bin_x = shifted_x / parameters.bin_size_x();
+        // compare as floating point numbers: the quotients may be infinite, not-a-number or too
+        // large for an integer, in which case the conversions below would be undefined
+        T const real_bin_x = shifted_x / parameters.bin_size_x();
 
-        if (bin_x >= parameters.bins_x())
+        if (!(real_bin_x < T(parameters.bins_x())))
         {
             // point is right of the range that we are binning
             return;
         }
 
-        std::size_t const bin_y = shifted_y / parameters.bin_size_y();
+        std::size_t const bin_x = real_bin_x;
 
-        if (bin_y >= parameters.bins_y())
+        T const real_bin_y = shifted_y / parameters.bin_size_y();
+
+        if (!(real_bin_y < T(parameters.bins_y())))
         {
             return;
         }
+
+        std::size_t const bin_y = real_bin_y;
 
         std::size_t const new_index = indices_.at(index) + 2 * (bin_y *
             parameters.bins_x() + bin_x);
